@@ -533,6 +533,19 @@ fn c02_cookie_strategy(client_addr: String, expiry: u64) -> BoxedStrategy<(Optio
         2 => Just(same_ip_other_port),
         2 => gens::client_addr(),
         1 => Just(if client_ip.is_ipv4() { "[2001:db8::77]:25565".to_string() } else { "192.0.2.55:25565".to_string() }),
+        // a different address that merely embeds the client's: the deprecated IPv4-compatible form ::a.b.c.d of an
+        // IPv4 client (not the IPv4-mapped ::ffff:a.b.c.d), or the IPv4 address made of the last four bytes of an
+        // IPv6 client
+        1 => Just(match client_ip {
+            std::net::IpAddr::V4(v4) => {
+                let o = v4.octets();
+                SocketAddr::new(std::net::IpAddr::V6(std::net::Ipv6Addr::new(0, 0, 0, 0, 0, 0, u16::from_be_bytes([o[0], o[1]]), u16::from_be_bytes([o[2], o[3]]))), 25565).to_string()
+            }
+            std::net::IpAddr::V6(v6) => {
+                let o = v6.octets();
+                SocketAddr::new(std::net::IpAddr::V4(std::net::Ipv4Addr::new(o[12], o[13], o[14], o[15])), 25565).to_string()
+            }
+        }),
     ];
     let e = expiry as i64;
     let ages: Vec<i64> = vec![0, 1, e.saturating_sub(1).max(0), e.max(0), e.saturating_add(1), e.saturating_mul(2).saturating_add(10), -5, -100_000, 30];
